@@ -1,0 +1,10 @@
+//go:build verif
+
+package eval
+
+// VerifCacheOff, when set, makes every memoization lookup miss and every store a no-op, so that a
+// verification harness can run the same program with memoization on and off in one binary.
+// Only compiled with the `verif` build tag.
+var VerifCacheOff bool
+
+func cacheOff() bool { return VerifCacheOff }
